@@ -42,7 +42,7 @@ add('C10', 'l1', 'Metamorphic: repeated loads + in-process code generation (same
     technique='metamorphic property-based testing (permutation / re-run / differential across file formats)')
 add('C11', 'l1', 'Generated projects with escape-heavy literals; every Literal index is checked against its table, each table against the AST literal set, nested string counts against their top locale, and the files written by TranslationsInfos::write_to_dir are read back with serde_json.',
     L1_NOTE + 'stage 2 builds generated packages with dynamic_load + ssr: text is read at run time through the tables, and __i18n_request_translations__ is compared with the AST literal set; the wasm client side is not observed.')
-add('C12', 'l0a', 'Exhaustive enumeration of supported sets (size 1-3 quick, 1-4 thorough) x request lists (length 0-3) over a 12-tag universe plus junk entries, anchored by declare_locales! enums, plus random BCP-47 sets; Locale::find_locale / find_matchs are checked against a validity predicate (first request that has any match wins; exact before less specific; unparseable = absent).',
+add('C12', 'l0a', 'Exhaustive enumeration of supported sets (size 1-3 quick, 1-4 thorough) x request lists (length 0-3) over a 12-tag universe plus junk entries, a second exhaustive stage over sets holding a locale without a language (und, und-Latn, und-FR next to the locales they shadow, both declaration orders; judged by what both readings of such a locale imply), anchored by declare_locales! enums, plus random BCP-47 sets; Locale::find_locale / find_matchs are checked against a validity predicate (first request that has any match wins; exact before less specific; unparseable = absent).',
     'Trusted: the harness DynLocale implementation of the public Locale trait (cross-checked against three declare_locales! enums), icu_locid parsing.',
     technique='exhaustive enumeration of small finite domains + property-based testing with a validity-predicate oracle')
 add('C13', 'l2', 'Generated locale sets (regions, scripts, variants, near-duplicates, RTL; default anywhere or unlisted), each compiled with load_locales!(); every identity method of every locale and ~15 probe strings per name near a locale name are observed and compared with the configuration.',
@@ -63,8 +63,8 @@ add('C17', 'l0dyn', 'Arbitrary Unicode string tables (quotes, backslashes, newli
 add('C18', 'l0b', 'Exhaustive: every formatter name x option combination x omitted / unknown / duplicated arguments x whitespace through Formatter::from_name_and_args, ParsedValue::new and t_format!; the full option matrix through the __private helpers and td_string!/td_format_string! for 8 locales against freshly built ICU4X formatters. Sampled: call histories of <=60 calls, optionally with 2-8 threads racing on first uses, each in a fresh process (the cache is process-global): results must not depend on history or thread; histories on a live context (views made by t_format!/tu_format!/t!, set_locale, re-rendering): every kept view and every evaluate-now string macro must show the output for the current locale. Stage 2 (generated crates): generated projects whose variables and count variables carry formatters inside components, range branches, plural forms, referenced and defaulted keys, compiled with load_locales!() and observed through td_string!/td_display!/td!; expected = reference rendering with each formatted variable replaced by fresh ICU4X output for the rendered locale (computed in the generated binary by the independent vref crate).',
     'Interleavings are sampled, not controlled. `list_length` (book) vs `list_style` (code) is not asserted. Duplicated arguments: first recognised occurrence wins (as implemented). time_length full/long panic: known finding D23.',
     technique='exhaustive enumeration + differential property-based testing against fresh ICU4X formatters; stateful histories')
-add('C19', 'l1', 'Generated Cargo.toml manifests (preamble / trailing sections, field orders, spellings, duplicates, bad inherits, missing fields) and directory layouts (decoys, missing files); ConfigFile fields, files read and errors from parse_locales_raw are compared with a three-valued model (must-accept / must-reject / unspecified).',
-    'JSON build. Unspecified (not asserted): default locale left out of `locales` but used as an inherits target; undocumented sub-table spellings are not generated.')
+add('C19', 'l1', 'Generated Cargo.toml manifests (preamble / trailing sections, field orders, spellings, duplicates, bad inherits, missing fields) and directory layouts (decoys, missing files); ConfigFile fields, files read and errors from parse_locales_raw are compared with a three-valued model (must-accept / must-reject / unspecified). Extension part in the JSON, YAML and JSON5 harness builds: per (namespace, locale) a valid file under a non-empty subset of the format extensions plus decoy endings; exactly one candidate per unit is read, the content comes from the file reported as read, and a second layout differing in one unit leaves the choice for every other unit unchanged (metamorphic).',
+    'Configuration part: JSON build. Which of x.yaml / x.yml wins when both exist is not asserted. Unspecified (not asserted): default locale left out of `locales` but used as an inherits target; undocumented sub-table spellings are not generated.')
 add('C20', 'l1', 'Generated projects where plurals and each formatter family occur rarely and in varied places (other locales, nested subkeys, later namespaces, via `$t`, unreachable surplus keys); TranslationsInfos::get_icu_keys() as a set is compared with the union of Options::into_data_keys over the families the AST needs; locales and namespaces are compared with the configuration.',
     L1_NOTE + 'option values of formatters belong to C18.')
 
